@@ -156,6 +156,10 @@ func (fr *Frame) doCallWith(c *ssa.CallCommon, instr ssa.Instruction, fnVal Val,
 					hn += "[" + h.Op + "]"
 				}
 				vc.oblige("protocol", fmt.Sprintf("%s/call/%s/assert", vc.RootKey, hn), h.Tags, pc, g, pos, h.Text)
+				// vacuity guard: the asserted call site must be reachable under the facts assumed so far
+				cv := vc.oblige("cover", fmt.Sprintf("%s/cover/call/%s", vc.RootKey, hn), h.Tags, pc, True, pos, "the asserted call site is reachable (not a vacuous protocol obligation)")
+				cv.Cover = true
+				cv.SiteCover = true
 			}
 		}
 	}
@@ -593,6 +597,12 @@ func (fr *Frame) applyContract(fc *FuncContract, callee *ssa.Function, args []Va
 	env2.old = old
 	env2.bindResults(callee, rt, res)
 	for _, cl := range fc.Of("ensures") {
+		if freshOnHeap(cl.Expr) {
+			// fresh(x.f) in an exported postcondition would contradict the allocation facts of the caller
+			// (its allocation array does not record the callee's allocations): must be a `proves` clause
+			vc.contractError(cl, fmt.Errorf("fresh() of a heap location in an exported `ensures` of %s: use `proves` (not exported) and export a weaker fact", fc.Key))
+			continue
+		}
 		g, err := env2.evalBool(cl.Expr)
 		if err != nil {
 			vc.contractError(cl, err)
@@ -611,6 +621,21 @@ func (fr *Frame) applyContract(fc *FuncContract, callee *ssa.Function, args []Va
 		vc.UsedAssumed["unproved postcondition of "+fc.Key+" assumed by its callers: "+cl.Expr.String()] = true
 	}
 	return res, pc
+}
+
+// freshOnHeap: the expression applies fresh() to something that is not a plain identifier (result/parameter).
+func freshOnHeap(e Expr) bool {
+	found := false
+	walkExpr(e, func(x Expr) {
+		if c, ok := x.(*ECall); ok {
+			if id, ok := c.Fun.(*EIdent); ok && id.Name == "fresh" && len(c.Args) == 1 {
+				if _, plain := c.Args[0].(*EIdent); !plain {
+					found = true
+				}
+			}
+		}
+	})
+	return found
 }
 
 func shortName(key string) string {
